@@ -34,6 +34,8 @@ def run(ck):
     ck.rule("C12.R10", "what a reload replaces holds no per-span state of its own: a value swapped in judges spans that were opened before the reload", floor=5)
     ck.rule("C12.R11", "an EnvFilter edited in place is re-read by the rebuild: register_callsite refreshes the per-callsite span matcher on every registration (as C08.R11)", floor=1)
     ck.rule("C12.R12", "a callsite first hit while a reload is in progress ends up judged by the new value: only the thread that won the registration CAS registers, others answer `sometimes` (as C04.R4), and the cached interest is written only through set_interest (as C01.R7)", floor=5)
+    ck.rule("C12.R16", "an EnvFilter edited in place through the handle takes effect: adding the first span-scoped directive switches the span-directive path on "
+            "(has_dynamics set on every path that adds to `dynamics`; as C11.R14)", floor=1)
     ck.rule("C12.R15", "after a reload the stack combines interests and hints according to what the slot holds *now*: whether a position carries a per-subscriber "
             "filter is asked of the live value, not remembered from construction", floor=1)
     ck.rule("C12.R14", "what the reloaded filter answers the rebuild is not lost when per-subscriber filters' interests are combined: differing answers accumulate to "
@@ -76,6 +78,8 @@ def run(ck):
             # the new value's answer to the rebuild must survive being combined with its neighbours' answers
             C08.r3(ck, F, rid="C12.R14")
             psf_snapshot(ck, F)
+            from rules import C11 as _C11
+            _C11.has_dynamics_rule(ck, Facts("release"), rid="C12.R16")
     ck.tag = ""
 
 
